@@ -486,32 +486,68 @@ func c04RpcGen(rt *rapid.T) c04RpcCase {
 	}
 	n := rapid.IntRange(1, 24).Draw(rt, "nops")
 	fault := false
+	// generator-side bookkeeping, only used to steer the draw towards the
+	// interesting region (calls for apps that are still cached while the store is down)
+	inStore := map[string]bool{}
+	for _, kv := range c.Store {
+		inStore[kv.App] = true
+	}
+	clock := 0
+	warmAt := map[string]int{}
+	var warm func() []string
+	warm = func() []string {
+		var out []string
+		for _, a := range c04Apps {
+			if at, ok := warmAt[a]; ok && clock-at < 270 {
+				out = append(out, a)
+			}
+		}
+		return out
+	}
 	for i := 0; i < n; i++ {
 		kinds := []string{"call", "call", "call", "call", "call", "call", "sleep", "sleep"}
 		if fault {
-			kinds = append(kinds, "heal")
+			kinds = append(kinds, "call", "call", "heal")
 		} else {
 			kinds = append(kinds, "fault-err", "fault-down", "set", "del")
+			if len(warm()) > 0 {
+				kinds = append(kinds, "fault-err", "fault-down")
+			}
 		}
 		k := rapid.SampledFrom(kinds).Draw(rt, "kind")
 		op := c04RpcOp{K: k}
 		switch k {
 		case "call":
-			op.App = rapid.SampledFrom([]string{"a1", "a1", "a2", "a3", "ghost"}).Draw(rt, "app")
+			apps := []string{"a1", "a1", "a2", "a3", "ghost"}
+			if w := warm(); fault && len(w) > 0 {
+				apps = append(apps, w...)
+				apps = append(apps, w...)
+				apps = append(apps, w...)
+			}
+			op.App = rapid.SampledFrom(apps).Draw(rt, "app")
 			op.Tok = rapid.SampledFrom([]string{"=", "=", "=", "t1", "t2", "nope"}).Draw(rt, "tok")
 			op.MD = rapid.SampledFrom([]string{"full", "full", "full", "full", "full", "full", "full", "full", "extra", "nomd", "emptymd", "noapp", "notoken", "emptyapp", "emptytoken"}).Draw(rt, "md")
 			op.Via = rapid.SampledFrom([]string{"unary", "stream", "direct"}).Draw(rt, "via")
+			if !fault && inStore[op.App] && (op.MD == "full" || op.MD == "extra") {
+				if _, ok := warmAt[op.App]; !ok || clock-warmAt[op.App] >= 270 {
+					warmAt[op.App] = clock
+				}
+			}
 		case "sleep":
-			op.Sec = rapid.SampledFrom([]int{1, 30, 100, 250, 270, 300, 330, 400}).Draw(rt, "sec")
+			op.Sec = rapid.SampledFrom([]int{1, 1, 30, 30, 100, 250, 270, 300, 330, 400}).Draw(rt, "sec")
+			clock += op.Sec
 		case "set":
 			op.App = rapid.SampledFrom(c04Apps).Draw(rt, "app")
 			op.Tok = rapid.SampledFrom(c04Tokens).Draw(rt, "tok")
+			inStore[op.App] = true
 		case "del":
 			op.App = rapid.SampledFrom(c04Apps).Draw(rt, "app")
+			delete(inStore, op.App)
 		case "fault-err", "fault-down":
 			fault = true
 		case "heal":
 			fault = false
+			clock += 15
 		}
 		c.Ops = append(c.Ops, op)
 	}
